@@ -226,6 +226,10 @@ if anyof (body :raw :regex "a.*", body :text :is ["a"], date :zone "+0100" :valu
 keep;""",
     b"""redirect "a@b"; fileinto "x"; reject "no"; discard; keep; stop; setflag "a"; addflag "v" "a"; removeflag ["a"];
 vacation "r"; set "x" "y"; redirect :copy "c@d"; fileinto :create "y"; keep :flags "z";""",
+    # equal siblings everywhere: tests, commands, list items, nested lists of equal tests
+    b"""if anyof (true, false, true) { keep; keep; }
+if allof (not false, not false, anyof (exists ["a", "a"], exists ["a", "a"])) { if true { stop; } if true { stop; } }
+elsif anyof (header :is "a" "b", header :is "a" "b") { discard; discard; }""",
 ]
 EOL_CHOICES = [b"\n", b"\r\n"]
 
